@@ -25,6 +25,7 @@ import (
 
 	"github.com/thought-machine/please/src/core"
 	"github.com/thought-machine/please/src/fs"
+	"github.com/thought-machine/please/src/verifhook"
 )
 
 const hashLength = sha1.Size
@@ -357,6 +358,7 @@ func writeRuleHash(state *core.BuildState, target *core.BuildTarget) error {
 		if err := fs.RecordAttr(output, hash, xattrName, state.XattrsSupported); err != nil {
 			return err
 		}
+		verifhook.Point("build.ruleHash.recorded")
 	}
 	if fs.FileExists(targetBuildMetadataFileName(target)) {
 		return fs.RecordAttr(targetBuildMetadataFileName(target), hash, xattrName, state.XattrsSupported)
@@ -402,6 +404,7 @@ func StoreTargetMetadata(target *core.BuildTarget, md *core.BuildMetadata) error
 	}
 
 	defer mdFile.Close()
+	verifhook.Point("build.metadata.created")
 
 	writer := gob.NewEncoder(mdFile)
 	if err := writer.Encode(md); err != nil {
